@@ -138,7 +138,7 @@ fn pass0_internal(
                                     t: segment.t,
                                     items: vec![],
                                 });
-                                pass0_internal(segments[0].clone(), context, macroses)?;
+                                pass0_internal(segment.clone(), context, macroses)?;
                             } else {
                                 context.add_segment(segment.clone());
                             }
@@ -199,11 +199,15 @@ fn macro_expand(
         bail!("call undefined macro {} on {}", macro_name, line);
     }
 
+    // Empty segments are dropped, except the last one: it keeps the segment
+    // the body has switched to, so the caller continues there
+    let count = segments.borrow().len();
     let segments = segments
         .borrow()
         .iter()
-        .filter(|x| !x.borrow().is_empty())
-        .map(|x| x.borrow().clone())
+        .enumerate()
+        .filter(|(i, x)| !x.borrow().is_empty() || (*i > 0 && *i == count - 1))
+        .map(|(_, x)| x.borrow().clone())
         .collect();
 
     Ok(segments)
